@@ -32,8 +32,19 @@ def drive(F4, alg, N, order=0, selftest=False):
         calls = [g.get_voronoi_adjacency, g.get_cell_borders, g.get_center_distances]
         calls = calls[order % 3:] + calls[:order % 3]
         from vlib.rec import call_and_hold
-        call_and_hold(calls, "C04.returned_object_stable")
+        before = sum(REC.monitors[m]["calls"] + REC.monitors[m]["skipped"] for m in DECIDING)
+        results = call_and_hold(calls, "C04.returned_object_stable")
         G = np.asarray(g.get_grid_as_array(only_upper=True), dtype=float)
+        if sum(REC.monitors[m]["calls"] + REC.monitors[m]["skipped"] for m in DECIDING) == before and N >= 4:
+            # the class-level monitors did not fire (the grid is served by another cell model): the property speaks about every rotation
+            # grid with N >= 4, so its matrices are judged here from the grid's own double cover
+            REC.notes["C04 judged at the grid level (no HalfRotobjVoronoi behind the grid)"] += 1
+            P = np.asarray(g.get_grid_as_array(only_upper=False), dtype=float)
+            names = ["adjacency", "border_len", "center_distances"]
+            names = names[order % 3:] + names[:order % 3]
+            holder = type("Holder", (), {})()
+            for nm, res in zip(names, results):
+                geom4.judge_points(P, res, nm, holder=holder)
         direct, anti = geom4.oracle_for(G)
         off = ~np.eye(N, dtype=bool)
         if ((anti > geom4.AMBIG_HI) & ~(direct > geom4.AMBIG_HI) & off).any():
